@@ -514,7 +514,7 @@ def fam_build():
     for ae in (None, "gzip", "identity", "gzip;q=0", "*", "gzip, identity;q=0.5", "br", "gzip ;q=0", "", "gzip;q=0.5, identity", "*;q=0", "gzip;q=bogus"):
         for level in (0, 1, 6, 9):
             k += 1
-            base = {"kind": "build", "chunk": 3, "ae": ae, "level": level, "ops": ["G", "L68656c6c6f20776f726c64", "F", "X", "P", "P", "P", "P", "P", "P", "P", "P"]}
+            base = {"kind": "build", "chunk": 3, "ae": ae, "level": level, "ops": ["G", "L68656c6c6f20776f726c64", "F", "P", "X", "D"]}
             out.append(dict(base, id="bd%d" % k, method="GET"))
             out.append(dict(base, id="bd%d:h" % k, method="HEAD"))
             out.append(dict(base, id="bd%d:p" % k, method="POST"))
@@ -522,7 +522,7 @@ def fam_build():
     for ae in ("gzip", "identity", None):
         for seq in ((0, 6), (6, 0), (0, 0, 9), (9, 1), (0, 1, 0)):
             k += 1
-            base = {"kind": "build", "chunk": 3, "ae": ae, "level": seq[-1], "level_seq": list(seq), "ops": ["G", "L68656c6c6f20776f726c64", "F", "X", "P", "P", "P", "P", "P", "P", "P", "P"]}
+            base = {"kind": "build", "chunk": 3, "ae": ae, "level": seq[-1], "level_seq": list(seq), "ops": ["G", "L68656c6c6f20776f726c64", "F", "P", "X", "D"]}
             out.append(dict(base, id="bd%d" % k, method="GET"))
             out.append(dict(base, id="bd%d:h" % k, method="HEAD"))
     return out
@@ -560,6 +560,10 @@ def oracle_build(pid, sc, ob, pair=None):
                         data += bytes.fromhex(ev[1:])
                     elif ev[0] == "N":
                         ended = True
+                elif o[0] == "D" and r.startswith("d") and r != "d-":
+                    hexd, _frames, _shortest, t = r.split("!")[0][1:].split(":")
+                    data += bytes.fromhex(hexd)
+                    ended = ended or t == "N"
             if ended and written:
                 if ce == [b"gzip"]:
                     import zlib
@@ -842,6 +846,20 @@ def fam_range_headers():
             for s2 in ("1-1", "-2", "%d-%d" % (L, L + 5), "-%d" % (L + 1)):
                 k += 1
                 out.append({"id": "rg%d" % k, "method": "GET", "headers": [("range", "bytes=%s, %s" % (s1, s2))], "len": L, "etag": '"x"', "lm": "1000000000.0", "scripts": ["N", "N"], "extra_polls": 0})
+    # small entities exhaustively (C03's quantifier): every spec with positions 0..L+2, alone and in pairs, with / without OWS
+    for L in (1, 2, 3):
+        pos = list(range(0, L + 3))
+        specs = ["%d-" % a for a in pos] + ["-%d" % a for a in pos] + ["%d-%d" % (a, b) for a in pos for b in pos]
+        for sp in specs:
+            k += 1
+            out.append({"id": "rg%d" % k, "method": "GET", "headers": [("range", "bytes=" + sp)], "len": L, "etag": '"x"', "lm": "1000000000.0", "scripts": [], "extra_polls": 0})
+        if L == 3:
+            for i, s1 in enumerate(specs):
+                for j, s2 in enumerate(specs):
+                    if (i * 7 + j) % 3 == 0:          # a third of the pairs, all specs on both sides
+                        k += 1
+                        sep = (",", ", ", ",\t ")[(i + j) % 3]
+                        out.append({"id": "rg%d" % k, "method": "GET", "headers": [("range", "bytes=%s%s%s" % (s1, sep, s2))], "len": L, "etag": '"x"', "lm": "1000000000.0", "scripts": [], "extra_polls": 0})
     # values that are not range requests at all (short, other units, other case, stray whitespace, empty list elements)
     for v in ("", "b", "byte", "bytes", "bytes=", "0-1", "-5", "none", "=", "bytes =0-1", "Bytes=0-1", "BYTES=0-1", "bytes=0-1,", "bytes=,0-1", "bytes=0-1,,2-3",
               "bytes=0-1 ", " bytes=0-1", "bytes=0 - 1", "bytes=-", "bytes=--1", "bytes=1--2", "bytes=a-b", "bytes=0x1-2", "bytes=+1-2", "bytes=1-2;q=1", "items=0-1", "bytes"):
@@ -1212,6 +1230,29 @@ def fam_glue():
     return out
 
 
+def fam_fuzz_headers(n=None, seed=None):
+    """Grammar-derived near-misses and noise in the conditional / range headers (C13: totality; C03/C04/C05 where the value happens
+    to be grammatical).  Deterministic for a given VERIF_SEED."""
+    import random
+    n = n or (6000 if os.environ.get("VERIF_TIER") == "thorough" else 1500)
+    rnd = random.Random(int(os.environ.get("VERIF_SEED", "0") or 0) * 7919 + 13 if seed is None else seed)
+    toks = ["bytes=", "bytes", "=", "-", ",", ", ", " ", "\t", "0", "1", "9", "10", "999", "1000", "18446744073709551615", "18446744073709551616", "99999999999999999999999",
+            '"', 'W/', '"x"', 'W/"x"', '"y"', "*", "\\", "\xe9", "\xff", "+", "x", "items=", ";", "q=1", http_date(1000000000), "Sun, 09 Sep 2001", "GMT", "2001-09-09T01:46:40Z"]
+    names = ["range", "if-range", "if-match", "if-none-match", "if-modified-since", "if-unmodified-since"]
+    out = []
+    for k in range(n):
+        hs = []
+        for nm in rnd.sample(names, rnd.choice((1, 1, 2, 2, 3, 6))):
+            v = "".join(rnd.choice(toks) for _ in range(rnd.choice((0, 1, 2, 3, 4, 6, 9))))
+            if nm == "range" and rnd.random() < 0.6:
+                v = "bytes=" + v
+            v = v.strip(" \t")          # the http crate (and hyper) never hand over leading / trailing whitespace
+            hs.append((nm, v))
+        out.append({"id": "fz%d" % k, "method": rnd.choice(("GET", "GET", "GET", "HEAD", "POST")), "headers": hs, "len": rnd.choice((0, 1, 10, 1000, 2 ** 63, 2 ** 64 - 1)),
+                    "etag": rnd.choice((None, '"x"', 'W/"x"')), "lm": rnd.choice((None, "1000000000.0", "1000000000.999999999", "0.0")), "entity_headers": [], "scripts": ["N", "N", "N"], "extra_polls": 1, "fuzz": True})
+    return out
+
+
 def oracle_method(pid, sc, ob):
     if pid != "C13" or sc.get("method", "GET") in ("GET", "HEAD") or ob["panic"] is not None:
         return None
@@ -1227,12 +1268,13 @@ def oracle_method(pid, sc, ob):
 
 
 for _fn in ("serve_inner", "serve", "prepare_multipart"):
-    FAMILIES[("glue", _fn)] = ("serve_witness", lambda: fam_glue() + fam_cond()[::7] + fam_range_headers()[::3])
+    FAMILIES[("glue", _fn)] = ("serve_witness", lambda: fam_glue() + fam_cond()[::7] + fam_range_headers()[::3] + fam_fuzz_headers())
 
 
 def all_serve_oracles(pid, sc, o):
-    if sc.get("repeated") and pid not in ("C13", "C12", "C20"):
-        # repeated header lines are in the domain of C13 only (totality); `serve` reads the first line of each name
+    if (sc.get("repeated") or sc.get("fuzz")) and pid not in ("C13", "C12", "C20"):
+        # repeated header lines and random header noise are in the domain of C13 only (totality, truthful hints, terminal
+        # bodies); the functional oracles are written for the categorical products of their own properties
         return None
     return oracle_serve(pid, sc, o) or oracle_method(pid, sc, o) or oracle_range(pid, sc, o) or oracle_cond(pid, sc, o) or oracle_whole(pid, sc, o)
 
@@ -1502,7 +1544,7 @@ if __name__ == "__main__":
                         print(pid, why, stream_line(sc), "\n   ", ln)
         print(len(scs), "scenarios; oracle failures:", bad)
         sys.exit(0)
-    scs = {"mp": fam_multipart_faults, "sg": fam_single_faults, "rg": fam_range_headers, "cd": fam_cond, "gl": fam_glue}[fam]()
+    scs = {"mp": fam_multipart_faults, "sg": fam_single_faults, "rg": fam_range_headers, "cd": fam_cond, "gl": fam_glue, "fz": fam_fuzz_headers}[fam]()
     lines = run_native("serve_witness", scs)
     bad = 0
     for sc, ln in zip(scs, lines):
